@@ -50,7 +50,10 @@ type Context struct {
 	Cfg *Configs
 	St  *Stores
 	Cs  *Clientsets
+	Inf *Informers
 }
+
+func (c *Context) Informers() controllercontext.Informers { return c.Inf }
 
 func (c *Context) Clientsets() controllercontext.Clientsets { return c.Cs }
 
